@@ -439,7 +439,10 @@ def write_case(case, td):
         os.makedirs(d, exist_ok=True)
         p = os.path.join(d, fl['name'])
         with open(p, 'w') as f:
-            f.write('\n'.join(stmt_text(st) for st in fl['stmts']) + '\n')
+            if case.get('layout') is not None:
+                f.write(render_layout(fl['stmts'], case['layout'], i, case.get('layout_opts')))
+            else:
+                f.write('\n'.join(stmt_text(st) for st in fl['stmts']) + '\n')
         paths.append(p)
     for extra in case.get('extra_files', []):
         d = os.path.join(td, extra['dir'])
@@ -540,3 +543,82 @@ def obs_term_image_only(case, st, val):
     if st != 'ok':
         return 'None'
     return f'(Some ({C.zlist(val["image"])}, ([] : list (Z * list Z))))'
+
+
+# ------------------------------------------------------------------------------------------------
+# surface layout (C18): meaning-preserving decorations applied when a case carries a 'layout' seed
+# ------------------------------------------------------------------------------------------------
+LAYOUT_DEFAULT = {'case': True, 'ws': True, 'tabs': True, 'comments': True, 'blank': True, 'label_same_line': True, 'compound': True}
+
+
+def _ws(rng, opts, minimum=1):
+    chars = ' \t' if opts.get('tabs') else ' '
+    n = rng.choice([minimum, minimum, 1, 2, 3]) if opts.get('ws') else minimum
+    n = max(n, minimum)
+    return ''.join(rng.choice(chars) for _ in range(n))
+
+
+def _recase(rng, word):
+    k = rng.randint(0, 2)
+    return word.upper() if k == 0 else (word.lower() if k == 1 else ''.join(c.upper() if rng.random() < 0.5 else c.lower() for c in word))
+
+
+def layout_stmt(rng, opts, st):
+    """text of one statement under a random layout; None if the statement kind gets no decoration"""
+    k = st[0]
+    if k in ('instr', 'asm'):
+        mn = st[1]
+        ops = []
+        for o in st[2]:
+            t = o if isinstance(o, str) else (o[0] if isinstance(o, list) else expr_text(o))
+            if isinstance(o, str) and opts.get('case') and rng.random() < 0.5:
+                t = _recase(rng, t)                   # a plain register operand
+            ops.append(t)
+        if opts.get('case') and rng.random() < 0.6:
+            mn = _recase(rng, mn)
+        sep = lambda: (_ws(rng, opts, 0) + ',' + _ws(rng, opts, 0)) if opts.get('ws') else ', '
+        text = mn
+        if ops:
+            text += _ws(rng, opts, 1)
+            for i, o in enumerate(ops):
+                text += (sep() if i else '') + o
+        return text
+    return stmt_text(st).strip()
+
+
+def render_layout(stmts, seed, file_index, opts=None):
+    import random as _random
+    rng = _random.Random(f'{seed}/{file_index}')
+    opts = dict(LAYOUT_DEFAULT, **(opts or {}))
+    lines = []
+    i = 0
+    n = len(stmts)
+    while i < n:
+        st = stmts[i]
+        k = st[0]
+        if opts.get('blank') and rng.random() < 0.15:
+            lines.append(rng.choice(['', '   ', '\t']))
+        if opts.get('comments') and rng.random() < 0.12:
+            lines.append(_ws(rng, opts, 0) + '; ' + rng.choice(['note', 'ldi a, 5', 'x: .byte 1', '#define Q 1', 'comment; again']))
+        text = layout_stmt(rng, opts, st)
+        indent = _ws(rng, opts, 0) if opts.get('ws') else ('    ' if k not in ('label', 'org', 'memzone', 'align') and not text.startswith('#') else '')
+        if k == 'label' and opts.get('label_same_line') and i + 1 < n and rng.random() < 0.5 \
+                and stmts[i + 1][0] in ('instr', 'asm', 'data', 'fill', 'zero', 'zerountil', 'str'):
+            nxt = layout_stmt(rng, opts, stmts[i + 1])
+            text = text + _ws(rng, opts, 1 if not opts.get('ws') else rng.choice([0, 1, 2])) + nxt
+            i += 1
+            k = stmts[i][0]
+        # consecutive instructions on one line
+        while opts.get('compound') and k in ('instr', 'asm') and i + 1 < n and stmts[i + 1][0] in ('instr', 'asm') and rng.random() < 0.3:
+            text = text + _ws(rng, opts, 1) + layout_stmt(rng, opts, stmts[i + 1])
+            i += 1
+        if text.startswith('#'):
+            indent = ''
+        line = indent + text
+        if opts.get('ws') and rng.random() < 0.3:
+            line += _ws(rng, opts, 1)
+        if opts.get('comments') and rng.random() < 0.25 and not text.startswith('#include'):
+            line += _ws(rng, opts, 0) + ';' + rng.choice([' c', 'x', ' nop', ' "q"', ''])
+        lines.append(line)
+        i += 1
+    return '\n'.join(lines) + '\n'
